@@ -26,7 +26,8 @@ RULE = ("systems of 2-4 plain molecules from a pool with heavy-atom masses 12..7
         "tags; non-trivial = mass ratio >= 3 between two components and "
         "fractions not all equal; distinct = (system string, seed)")
 ASSUMPTIONS = ["declared mass fractions are the ones the generator wrote into the string (absolute mass / system mass, or the percentage)",
-               "tolerance 8 sigma of the ideal independent-pick scheme + stop-rule overshoot; a rejection is re-run with another seed"]
+               "tolerance 8 sigma (plain molecules) / 6 sigma with the measured size-biased member mass x 1.5 (polymer components) of the ideal "
+               "independent-pick scheme + stop-rule overshoot; a rejection is re-run with another seed"]
 
 SIZES = {"quick": 64, "thorough": 1500}
 
@@ -179,10 +180,11 @@ def check(acc, smis, frac, nmol, kinds, seed):
 
 
 # ------------------------------------------------------------------------------------- polymer components, blends of one polymer
-TEMPLATES = ["[H]{[>][<]CC[>][<]}|%s|[H]", "C{[$][$]CC[$],[$]CC(C)[$][$]}|%s|C", "{[][<]CCO[>];[<][H],[>]O[]}|%s|",
-             "N{[<][>]C(=O)CN[<][>]}|%s|O", "[H]{[>][<]CC([>])c1ccccc1[<]}|%s|[H]"]
-DISTS = ["gauss(300, 10)", "gauss(1200, 40)", "gauss(3000, 100)", "uniform(200, 260)", "uniform(900, 1100)", "poisson(400)",
-         "schulz_zimm(660, 600)", "log_normal(800, 1.02)", "flory_schulz(0.02)"]
+# heavy repeat units keep the number of units per molecule (and the cost of an ensemble) small
+TEMPLATES = ["[H]{[>][<]C(I)C(I)[>][<]}|%s|[H]", "C{[$][$]C(Br)C(Br)[$],[$]CC(I)[$][$]}|%s|C", "{[][<]C(I)C(I)O[>];[<][H],[>]O[]}|%s|",
+             "N{[<][>]C(=O)C(I)N[<][>]}|%s|O", "[H]{[>][<]CC([>])c1c(I)cc(I)cc1I[<]}|%s|[H]"]
+DISTS = ["gauss(600, 20)", "gauss(1500, 50)", "gauss(3000, 100)", "uniform(500, 700)", "uniform(2500, 3500)", "poisson(900)",
+         "schulz_zimm(1320, 1200)", "log_normal(2000, 1.02)", "flory_schulz(0.002)"]
 SMALL = ["CCO", "CO", "IC(I)I", "c1ccccc1", "CCCCCCCCN"]
 
 
@@ -206,7 +208,7 @@ def poly_case(draw):
     if "abs" not in kinds:
         kinds[0] = "abs"
     order = draw(st.permutations(list(range(len(comps)))))
-    return [comps[i] for i in order], [frac[i] for i in order], draw(st.integers(250, 500)), [kinds[i] for i in order], draw(st.integers(0, 2**31 - 1))
+    return [comps[i] for i in order], [frac[i] for i in order], draw(st.integers(1000, 1600)), [kinds[i] for i in order], draw(st.integers(0, 2**31 - 1))
 
 
 def check_poly(acc, comps, frac, nmol, kinds, seed):
@@ -289,7 +291,7 @@ def check_poly(acc, comps, frac, nmol, kinds, seed):
     def eps(i):
         f = frac[i]
         var = (f * (1 - f) ** 2 * meff[i] + f * f * sum(frac[j] * meff[j] for j in range(len(comps)) if j != i)) / Sobj
-        return 8 * math.sqrt(1.5 * var) + 2 * mmax / Sobj
+        return 6 * math.sqrt(1.5 * var) + 2 * mmax / Sobj
     acc.case((text, seed) if max(rough) / min(rough) >= 3 or sig["same_text_blend"] else None,
              labels=[f"n:{len(comps)}", "polymer_components", f"same_text_blend:{sig['same_text_blend']}"])
     badc = [i for i in range(len(comps)) if abs(sh[i] - frac[i]) > eps(i)]
@@ -314,7 +316,7 @@ def run_shard(cfg):
     acc = Acc()
     n = max(1, SIZES[cfg["tier"]] // cfg["nshards"])
     drive(sys_case(6000 if cfg["tier"] == "thorough" else 2400), lambda x: check(acc, *x), n, cfg["seed"])
-    drive(poly_case(), lambda x: check_poly(acc, *x), max(1, n // 2), cfg["seed"] + 1)
+    drive(poly_case(), lambda x: check_poly(acc, *x), max(1, n // 4), cfg["seed"] + 1)
     return acc
 
 
